@@ -51,4 +51,11 @@ GROUPS += [
  dict(_EI, name='enc_create', entry='h_enc_create', expect_canaries=2, functions=['opus_encoder_create', 'opus_encoder_destroy', 'opus_encoder_init'],
       cbmc_flags=['--object-bits', '10', '--no-array-field-sensitivity', '--malloc-may-fail', '--malloc-fail-null', '--memory-leak-check'], what='opus_encoder_create: bad arguments, failing sub-initialiser, allocation failure, no leak'),
 ]
+GROUPS.append(dict(name='encode_native_force_mono_fs48000', cls='F', tu='C11_encode_native.c', entry='h_encode_native_force_mono', dfcc=False, canary='real', expect_canaries=2, cex=False, tier='thorough',
+    defines=['-DVERIF_FS=48000', '-U__SSE__'], unwind=9, timeout=2400, mem_gb=20, cbmc_flags=['--object-bits', '10', '--no-array-field-sensitivity'],
+    replace_calls=['opus_encode_frame_native:verif_encode_frame_native', 'compute_stereo_width:verif_compute_stereo_width',
+                   'is_digital_silence:verif_is_digital_silence', 'compute_frame_energy:verif_compute_frame_energy'],
+    functions=['opus_encode_native'], trusted=['stub of opus_encode_frame_native and helpers as in encode_native_decisions_*'],
+    bounds='Fs = 48000, stereo encoder with force_channels == 1 in an otherwise arbitrary state, two consecutive encode calls of the same legal frame size',
+    what='a forced mono request takes effect by the second packet (two-call history of the real opus_encode_native)'))
 META = {}
